@@ -182,7 +182,7 @@ def step(active: bool, peer_gone: bool, ack: bool, quiet: bool, cnt: int, wt: in
     exp_state, exp_emit, exp_deliver = reference(role, state, active, peer_gone, ack, idle_fire, has_send, kind)
     got_state = node.state()
     reported = {OPEN: "I-Open" if role == "CLIENT" else "R-Open"}.get(exp_state, exp_state)
-    handed = node.handed() or b""
+    handed = b"".join(node.sock.sent)[before:] + (node.handed() or b"")      # written during the tick + still attached
     emitted = [(h["command"], h["flags"] >= 128) for h, _ in ref_decode_msgs(bytes(handed))] if handed else []
     delivered = not a.postprocess_recv_messages.empty()
     released = a.transport is None
